@@ -218,7 +218,22 @@ def z_r3_writer_shape(p: Project, rep: Report):
             continue
         rep.check("Z-R3", "format_datetime:sign", ok, f"'-' is chosen when `{'' if (pol == minus_on_true) else 'not '}{a}`: the sign must be '-' exactly for negative offsets" if not ok else "", tloc(p, fd0))
     if not decided:
-        rep.note("Z-R3 undecided: sign selection not recognised")
+        # the sign printed by a numeric format of the HOURS part ('+d'): zero has no sign, so every offset whose hours
+        # part is 0 comes out as +0 (UTC-00:30 is written [+0.30])
+        hours_names = set()
+        for st_ in ast.walk(fd):
+            if isinstance(st_, ast.Assign) and len(st_.targets) == 1 and isinstance(st_.targets[0], (ast.Tuple, ast.List)) and isinstance(st_.value, ast.Call) and text(st_.value.func) == "divmod" and st_.targets[0].elts and isinstance(st_.targets[0].elts[0], ast.Name):
+                hours_names.add(st_.targets[0].elts[0].id)
+        signed_fmt = None
+        for x_ in ast.walk(fd):
+            if isinstance(x_, ast.FormattedValue) and x_.format_spec is not None and "+" in text(x_.format_spec) and any(isinstance(y_, ast.Name) and y_.id in hours_names for y_ in ast.walk(x_.value)):
+                signed_fmt = x_
+            elif isinstance(x_, ast.Call) and text(x_.func) == "format" and len(x_.args) == 2 and isinstance(x_.args[1], ast.Constant) and "+" in str(x_.args[1].value) and any(isinstance(y_, ast.Name) and y_.id in hours_names for y_ in ast.walk(x_.args[0])):
+                signed_fmt = x_
+        if signed_fmt is not None:
+            rep.check("Z-R3", "format_datetime:sign", False, f"the sign is printed by formatting the hours part ({text(signed_fmt)[:40]}): zero has no sign, so an offset between -0:59 and -0:01 is written [+0.MM] and read back an hour or so off", tloc(p, fd0))
+        else:
+            rep.note("Z-R3 undecided: sign selection not recognised")
     # --- hours / minutes split
     from . import paths as _PT
 
@@ -766,10 +781,29 @@ def z_r8_offset_domain(p: Project, rep: Report):
             else:
                 continue
             names = sorted({x.id for x in ast.walk(test) if isinstance(x, ast.Name) and x.id not in ("range", "abs")})
+            # module-level integer constants (and ranges of them) used in the test are part of the constant predicate
+            consts_ = {}
+            for nm_ in list(names):
+                if p.has_binding(modname, nm_) and nm_ not in [a.arg for a in getattr(fn, "args", ast.arguments(args=[])).args]:
+                    v_ = p.resolve(modname, nm_)
+                    if isinstance(v_, int) and not isinstance(v_, bool):
+                        consts_[nm_] = v_
+                        names.remove(nm_)
+                    elif isinstance(v_, (tuple, list)) and all(isinstance(x_, int) for x_ in v_):
+                        consts_[nm_] = list(v_)
+                        names.remove(nm_)
+                    else:
+                        bind_ = [pl for bn, kd, pl in p.module(modname).bindings if bn == nm_ and kd == "assign"]
+                        if len(bind_) == 1 and isinstance(bind_[0], ast.AST):
+                            try:
+                                consts_[nm_] = _pred_eval(bind_[0], dict(consts_))
+                                names.remove(nm_)
+                            except (ValueError, TypeError):
+                                pass
             if len(names) != 1 or "hour" not in names[0].lower():
                 continue
             try:
-                admitted = {h for h in range(-40, 41) if bool(_pred_eval(test, {names[0]: h})) is admit_when}
+                admitted = {h for h in range(-40, 41) if bool(_pred_eval(test, {**consts_, names[0]: h})) is admit_when}
             except (ValueError, TypeError):
                 rep.note(f"Z-R8 undecided: {label}: test {text(test)[:60]} not evaluated")
                 continue
@@ -902,3 +936,41 @@ def z_r5b_sign_of_zero_hours(p: Project, rep: Report):
         elif isinstance(x, ast.Call) and (dotted(x.func) or "").split(".")[-1] in ("match", "search", "fullmatch") and any(mentions(a) for a in x.args) and any(has_minus(a) for a in x.args):
             tested = x
     rep.check("Z-R5b", f"{fn0.name}:sign-of-zero-hours", tested is not None, f"the hours text goes through {text(call)[:30]} and nothing else looks at its sign character: '-0' becomes 0, so [-0.30] - the notation the library itself writes for an offset of minus thirty minutes - is read as +0:30, one hour off" if tested is None else "", where)
+
+
+def z_r10_offset_of_the_given_value(p: Project, rep: Report):
+    """the zone data written is that of the value given, not of a value computed from it"""
+    from . import paths as PT
+    from .flat import flat
+
+    rep.rule("Z-R10", "the offset and zone name written are those of the value that was given: in format_datetime every .utcoffset() / .tzname() whose result reaches the text is called on the parameter as received - not on the result of datetime arithmetic on it (`value + timedelta` is wall-clock arithmetic: it drops `fold` and re-evaluates the zone's rules for the new wall time, so within half a millisecond of a DST change, and anywhere in the repeated hour, the offset written belongs to another instant)")
+    fd0 = p.get_function(TYPES, "format_datetime").node
+    fd = flat(p, TYPES, fd0)
+    vp = params_of(fd0)[-1]
+    try:
+        pl = PT.enumerate_paths(fd, None, Expander(fd), resolve=False)
+    except AnalysisError as e:
+        rep.note(f"Z-R10 undecided: {e}")
+        return
+    cfg = pl.cfg
+    bad = None
+    n = 0
+    for q in pl:
+        if q.outcome != "return":
+            continue
+        for idx, nid in enumerate(q.nodes):
+            nd = cfg.nodes[nid]
+            if nd.stmt is None or nd.kind in ("join", "handlers"):
+                continue
+            for c in nd.calls():
+                if isinstance(c.func, ast.Attribute) and c.func.attr in ("utcoffset", "tzname") and not c.args:
+                    n += 1
+                    recv = PT.value_on_path(q, cfg, c.func.value, upto=idx)
+                    if not (isinstance(recv, ast.Name) and recv.id == vp):
+                        # a test that only refuses naive values may look at any equivalent value; what matters is
+                        # what reaches the text - but a re-bound parameter makes every later read a read of the sum
+                        bad = bad or (c, text(recv)[:60])
+    if n == 0:
+        rep.note("Z-R10 undecided: format_datetime reads no utcoffset() / tzname()")
+        return
+    rep.check("Z-R10", "format_datetime:zone-data-of-the-given-value", bad is None, f"{text(bad[0])[:40]} is evaluated on `{bad[1]}`, a value computed from the one given: around a change of the zone's offset the text carries the offset of a different instant" if bad else "", tloc(p, bad[0] if bad else fd0))
